@@ -236,6 +236,15 @@ pub mod rpc {
         crate::rpc::ping::RATE
     }
 
+    /// Wire encoding (protobuf, without the length prefix) of a consensus request.
+    pub fn encode_consensus_req(msg: &validator::Signed<validator::ConsensusMsg>) -> Vec<u8> {
+        zksync_protobuf::encode(&crate::rpc::consensus::Req(msg.clone()))
+    }
+    /// Wire encoding (protobuf, without the length prefix) of a ping request.
+    pub fn encode_ping_req(data: [u8; 32]) -> Vec<u8> {
+        zksync_protobuf::encode(&crate::rpc::ping::Req(data))
+    }
+
     type BoxFut<'a, T> = Pin<Box<dyn 'a + Send + Future<Output = T>>>;
     /// Harness-side consensus handler: called for every request, its future is the handler's
     /// lifetime (the real handler waits for the replica's ack here).
